@@ -65,6 +65,8 @@ func panicKind(msg string) string {
 		return "type-assertion-panic"
 	case strings.Contains(msg, "assignment to entry in nil map"):
 		return "nil-map-write-panic"
+	case strings.Contains(msg, "concurrent write to websocket connection"):
+		return "concurrent-write-panic"
 	case strings.Contains(msg, "reflect: call of"):
 		return "reflect-panic"
 	case strings.Contains(msg, "slice bounds out of range"):
@@ -97,6 +99,23 @@ func addTransports(srv *handler.Server, maxUpload, maxMem int64) {
 func newRig() *rig {
 	r := &rig{hook: &hookState{}, ups: map[[2]int64]*handler.Server{}}
 	r.hs = handschema.New(nil)
+	// subscription s(n: N) emits 0..N-1 and ends; it never panics and ignores cancellation
+	r.hs.Sub = func(ctx context.Context, field string, args map[string]any, call int) handschema.SubStep {
+		n := 0
+		switch x := args["n"].(type) {
+		case int64:
+			n = int(x)
+		case int:
+			n = x
+		case json.Number:
+			i, _ := x.Int64()
+			n = int(i)
+		}
+		if field == "s" && call < n {
+			return handschema.SubStep{Kind: "emit", Val: call}
+		}
+		return handschema.SubStep{Kind: "end"}
+	}
 	r.srv = handler.New(r.hs)
 	addTransports(r.srv, 0, 0)
 	r.srv.SetRecoverFunc(r.hook.fn)
